@@ -12,6 +12,7 @@ import (
 	"github.com/hashicorp/consul/agent/structs"
 	"github.com/hashicorp/consul/api"
 	"github.com/hashicorp/consul/internal/verifrt"
+	"github.com/hashicorp/consul/proto/private/pbpeering"
 	"github.com/hashicorp/consul/types"
 )
 
@@ -118,20 +119,29 @@ func vApplyLog(s *Store, a vLogArgs) []vCmdResult {
 		rec(true, s.SessionCreate(a.idx+3, &structs.Session{ID: vSessA, Node: "n1", NodeChecks: []string{"c1", "c2"}, Checks: []types.CheckID{"c3"}}), 0)
 		rec(true, s.SessionCreate(a.idx+4, &structs.Session{ID: vSessA, Node: "n1", NodeChecks: []string{"c2", "c1"}}), 0)
 	case 6: // manual virtual IPs moved from two services to a third: the list of services they were taken from
+		// (the second service is either another local service or the first one's namesake imported from a peer)
 		rec(true, s.SystemMetadataSet(a.idx, &structs.SystemMetadataEntry{Key: structs.SystemMetadataVirtualIPsEnabled, Value: "true"}), 0)
-		for i, name := range []string{"a", "b", "c"} {
-			rec(true, s.EnsureRegistration(a.idx+1+uint64(i), &structs.RegisterRequest{Node: "n1", Address: "10.0.0.1",
+		second := structs.PeeredServiceName{ServiceName: structs.NewServiceName("b", nil)}
+		if a.val&1 == 1 {
+			second = structs.PeeredServiceName{ServiceName: structs.NewServiceName("a", nil), Peer: "p1"}
+		}
+		rec(true, s.PeeringWrite(a.idx+1, &pbpeering.PeeringWriteRequest{Peering: &pbpeering.Peering{Name: "p1", ID: "9e650110-ac74-4c5a-a6a8-9348b2bed4e9"}}), 0)
+		for i, name := range []string{"a", "c"} {
+			rec(true, s.EnsureRegistration(a.idx+2+uint64(i), &structs.RegisterRequest{Node: "n1", Address: "10.0.0.1",
 				Service: &structs.NodeService{ID: name, Service: name, Port: 80, Connect: structs.ServiceConnect{Native: true}}}), 0)
 		}
+		rec(true, s.EnsureRegistration(a.idx+4, &structs.RegisterRequest{Node: "n9", Address: "10.0.0.9", PeerName: second.Peer,
+			Service: &structs.NodeService{ID: second.ServiceName.Name, Service: second.ServiceName.Name, Port: 80, PeerName: second.Peer,
+				Connect: structs.ServiceConnect{Native: true}}}), 0)
 		psn := func(n string) structs.PeeredServiceName { return structs.PeeredServiceName{ServiceName: structs.NewServiceName(n, nil)} }
-		ok, _, err := s.AssignManualServiceVIPs(a.idx+4, psn("a"), []string{"1.1.1.1"})
+		ok, _, err := s.AssignManualServiceVIPs(a.idx+5, psn("a"), []string{"1.1.1.1"})
 		rec(ok, err, 0)
-		ok, _, err = s.AssignManualServiceVIPs(a.idx+5, psn("b"), []string{"2.2.2.2"})
+		ok, _, err = s.AssignManualServiceVIPs(a.idx+6, second, []string{"2.2.2.2"})
 		rec(ok, err, 0)
-		ok, from, err := s.AssignManualServiceVIPs(a.idx+6, psn("c"), []string{"1.1.1.1", "2.2.2.2"})
+		ok, from, err := s.AssignManualServiceVIPs(a.idx+7, psn("c"), []string{"1.1.1.1", "2.2.2.2"})
 		rec(ok, err, uint64(len(from)))
 		for _, f := range from {
-			out[len(out)-1].ls = append(out[len(out)-1].ls, f.ServiceName.Name)
+			out[len(out)-1].ls = append(out[len(out)-1].ls, f.Peer+"/"+f.ServiceName.Name)
 		}
 	case 7: // a config entry write that two stored chains refuse: every replica answers with the same error
 		ens := func(i uint64, e structs.ConfigEntry) error {
